@@ -31,7 +31,7 @@ impl<T: AddressBytes> AddressBytes for &T {
 #[derive(Clone, Copy, Debug, PartialEq, Eq)]
 pub struct Address { pub bytes: [u8; ADDRESS_LEN], pub prefix: u8 }
 impl Address {
-    pub fn bytes(&self) -> [u8; ADDRESS_LEN] { self.bytes }
+    pub fn bytes(self) -> [u8; ADDRESS_LEN] { self.bytes }
     pub fn as_bytes(&self) -> &[u8; ADDRESS_LEN] { &self.bytes }
     pub fn prefix(&self) -> u8 { self.prefix }
     pub fn any() -> Self { Address { bytes: kani::any(), prefix: kani::any() } }
